@@ -128,6 +128,14 @@ func runQCase(c QCase, prop string, sub bool, tolerateKnown bool) qOutcome {
 				f = fail("C12,C02", "sqlite-counters", i, "queue_counters queued=%d leased=%d but rows queued=%d leased=%d", q, l, next.count("queued"), next.count("leased"))
 			}
 		}
+		if f == nil && w.mem != nil {
+			// the memory backend finds a message by its lease through a second index; a leased message that
+			// index no longer knows can be neither settled nor extended by its holder, and never expires
+			// (seed C14-15: a preview_only cancel by filter dropped the index entries of the leases it matched)
+			if id, lease := w.memLeaseIndexGap(); id != "" {
+				f = fail("C14,C04,C02,C03", "memory-lease-index", i, "after %s: message %s is leased under %s but the store's lease index has no entry for it", op.K, id, lease)
+			}
+		}
 		if f != nil {
 			switch {
 			case f.Sig != "" && tolerateKnown && verifkit.Known(f.Sig):
@@ -230,6 +238,7 @@ func TestReplay_Q(t *testing.T) {
 	}
 	replayC05Big()
 	replayC05Wait()
+	replayC07Batch()
 	replayInterleaved()
 	for _, rf := range append(verifkit.ReplayFiles("TestProp_C01_StoreCrash"), verifkit.ReplayFiles("TestProp_C15_BatchCrash")...) {
 		var c C01Case
